@@ -103,16 +103,19 @@ Definition read_one (p : inpkt) (rest : list inpkt) (s : st) : st * list evk :=
       (mkst (now s) (kk s) (now s) (last_out s) (ping_t s) (cstate s) (sock s) rest, [Rd InOther])
   end.
 
+(* loop_read(): at most one packet *)
+Definition read_phase (s : st) : st * list evk :=
+  match inq s with
+  | [] => (s, [])
+  | p :: rest => read_one p rest s
+  end.
+
 Definition service (s : st) : st * list evk :=
   if negb (sock s) then (s, [LoopRc RC_CONN_LOST])      (* select() on None: TypeError branch *)
   else
-    match inq s with
-    | [] => loop_misc s
-    | p :: rest =>
-        let (s1, e1) := read_one p rest s in
-        if negb (sock s1) then (s1, e1 ++ [LoopRc RC_CONN_LOST])
-        else let (s2, e2) := loop_misc s1 in (s2, e1 ++ e2)
-    end.
+    let (s1, e1) := read_phase s in
+    if negb (sock s1) then (s1, e1 ++ [LoopRc RC_CONN_LOST])
+    else let (s2, e2) := loop_misc s1 in (s2, e1 ++ e2).
 
 Definition step (s : st) (o : op) : st * list evk :=
   match o with
@@ -198,6 +201,20 @@ Definition pmon_step (m : pmon) (e : event) : pmon :=
   | _ => m
   end.
 Definition ping_monitor (tr : list event) : pmon := fold_left pmon_step tr pmon0.
+
+(* literal reading of C08.2 ("not answered within K"): the first PINGREQ, sent at t, whose PINGRESP
+   had not ARRIVED when an event later than t + K happened *)
+Record amon := mkamon { am_cur : option Z; am_bad : option Z }.
+Definition amon_step (k : Z) (m : amon) (e : event) : amon :=
+  let late := match am_cur m with Some t => fst e >? t + k | None => false end in
+  let bad := match am_bad m with Some b => Some b | None => if late then am_cur m else None end in
+  match snd e with
+  | TxPing => mkamon (Some (fst e)) bad
+  | Arr InPingresp => mkamon None bad
+  | _ => mkamon (am_cur m) bad
+  end.
+Definition unanswered_within (k : Z) (tr : list event) : option Z :=
+  am_bad (fold_left (amon_step k) tr (mkamon None None)).
 
 (* every keepalive close is justified: the CONNECT, or the latest PINGREQ, sent at t is still
    unanswered (no CONNACK resp. PINGRESP read since) and the close happens at t + K or later *)
